@@ -192,6 +192,15 @@ def gen_case(rng, index, tier):
             xi = {'yes': 'y\n', 'Y': 'Y\n', 'no': 'n\n'}[v.rsplit('-', 1)[1]]
         elif v != 'plain':
             xo = [v]
+    if case['cmd'] in ('empty', 'empty-days', 'list') and rng.random() < 0.25:
+        # every account's trash directories: the rule is applied per user, and
+        # the first account of the database has no directory on the volume
+        xo = xo + ['--all-users']
+        first = 0 if L.uid != 0 else 1
+        case['passwd'] = [['first', first, '@/nonexistent'],
+                          ['me', L.uid, '@/' + L.home]]
+        if rng.random() < 0.5:
+            case['passwd'].append(['last', 4105, '@/nonexistent'])
     case['xopts'] = xo
     case['xstdin'] = xi
     if case['cmd'] == 'put2-toggle' and (state != 'sticky' or tv == ''):
@@ -273,6 +282,15 @@ def run_case(case):
                         'state+cmd:%s/%s' % (state, cmd)]
     with world.World(case) as w:
         s0 = w.snapshot()
+        if case.get('passwd'):
+            obs['all_users_runs'] = 1
+            _pw = {'passwd': [[n, u, world.subst(h, w.R)]
+                              for n, u, h in case['passwd']]}
+            _run = run.run
+
+            def _run_pw(w_, c_, a_, **kw):
+                kw['plan'] = dict(kw.get('plan') or {}, **_pw)
+                return _run(w_, c_, a_, **kw)
         exp_put, _ = spec.expected_trash_dirs(
             os.path.join(w.cwd(), 'victim'), w.env(), uid, w.mounts)
         udir_rel = case['realtop'] + '/%d' % uid
@@ -287,12 +305,12 @@ def run_case(case):
             reply = ('0-%d\n' % (n - 1)) if n else '\n'
             r = run.run(w, 'restore', [], stdin=reply.encode(), cwd=w.R)
         elif cmd == 'empty':
-            r = run.run(w, 'empty', case.get('xopts', []), stdin=case.get('xstdin', '').encode())
+            r = (_run_pw if case.get('passwd') else run.run)(w, 'empty', case.get('xopts', []), stdin=case.get('xstdin', '').encode())
         elif cmd == 'empty-days':
-            r = run.run(w, 'empty', case.get('xopts', []) + ['1'],
+            r = (_run_pw if case.get('passwd') else run.run)(w, 'empty', case.get('xopts', []) + ['1'],
                         stdin=case.get('xstdin', '').encode())
         elif cmd == 'list':
-            r = run.run(w, 'list', case.get('xopts', []), stdin=b'')
+            r = (_run_pw if case.get('passwd') else run.run)(w, 'list', case.get('xopts', []), stdin=b'')
         else:
             r = run.run(w, 'rm', case.get('xopts', []) + ['*'], stdin=b'')
         s1 = w.snapshot()
